@@ -30,7 +30,7 @@ impl fmt::Debug for TokenLocation {
     fn fmt(&self, f: &mut fmt::Formatter<'_>) -> fmt::Result {
         writeln!(f, "{}:{}:{}", self.filename, self.line + 1, self.col + 1)?;
         writeln!(f, "{}", self.whole_line)?;
-        write!(f, "{:->1$}", '^', self.col + 1)
+        write!(f, "{}^", "-".repeat(self.col))
     }
 }
 
